@@ -37,7 +37,7 @@ PROB = {
     'numpy': {'xref': '`nopeX`', 'param': 'Parameters\n----------\nzzX: int\n    nothing'},
 }
 POSITIONS = ['p1l1', 'p1l2', 'p2', 'li', 'fb']
-OWNERS = ['module', 'class', 'function', 'method', 'attribute', 'inherited', 'reexported', 'classfield', 'classfield+inline', 'typefield+inline', 'ivar-two-sites', 'attr-redefined']
+OWNERS = ['module', 'class', 'function', 'method', 'attribute', 'inherited', 'reexported', 'classfield', 'classfield+inline', 'typefield+inline', 'ivar-two-sites', 'attr-redefined', 'classtypefield', 'modvarfield', 'modtypefield', 'class-redefined', 'function-redefined', 'class-redefined-both-bad']
 # (text on the opening line, leading lines below the quotes)
 LAYOUTS: List[Tuple[bool, List[str]]] = [(True, []), (False, []), (False, ['']), (False, ['', '']), (False, ['WS']), (False, ['TRAIL'])]
 
@@ -82,6 +82,8 @@ def module_source(owner: str, fmt: str, kind: str, pos: str, layout: Tuple[bool,
         return None
     body, pidx, sidx = b
     ATTRS = ('attribute', 'typefield+inline', 'ivar-two-sites', 'attr-redefined')
+    if owner in ('class-redefined', 'function-redefined', 'class-redefined-both-bad') and (nest or raw or layout[1] not in ([], ['']) or kind == 'param' or pos == 'fb'):
+        return None
     if kind == 'param' and owner in ('module', 'class') + ATTRS:
         return None
     if pos == 'fb' and owner in ('module', 'class') + ATTRS:
@@ -90,6 +92,14 @@ def module_source(owner: str, fmt: str, kind: str, pos: str, layout: Tuple[bool,
         return None
     if owner in ('inherited', 'reexported', 'classfield', 'classfield+inline') + ATTRS[1:] and (nest or raw or layout[1] not in ([], [''])):
         return None          # these owners vary the location of the object, not the layout of the literal
+    if owner in ('classtypefield', 'modvarfield', 'modtypefield'):
+        # the problem sits in the body of a field of the class / module docstring that documents (the type of) the variable q
+        if kind != 'xref' or pos != 'p2' or fmt in ('google', 'numpy') or nest or raw or layout[1] not in ([], ['']):
+            return None
+        p_ = PROB[fmt]['xref'].replace('X', '1')
+        tagname = {'classtypefield': 'type', 'modvarfield': 'var', 'modtypefield': 'type'}[owner]
+        tag = f'@{tagname} q:' if fmt == 'epytext' else f':{tagname} q:'
+        body, pidx, sidx = ['Para one.', '', f'{tag} the q {p_} end'], 2, 2
     if owner.startswith('classfield'):
         # the problem sits in the body of an @ivar field of the class docstring, which documents the attribute q
         if kind != 'xref' or pos != 'p2' or fmt in ('google', 'numpy'):
@@ -126,18 +136,22 @@ def module_source(owner: str, fmt: str, kind: str, pos: str, layout: Tuple[bool,
     lines: List[str] = [''] * k
     ind = '    ' * nest
     pre = [('    ' * i + f'class N{i}:') for i in range(nest)]
-    if owner == 'module':
+    if owner in ('modvarfield', 'modtypefield'):
+        d, off = doc('')
+        base = len(lines)
+        lines += d + ['q = 1']
+    elif owner == 'module':
         if nest:
             return None
         d, off = doc('')
         base = len(lines)
         lines += d + ['x = 1']
-    elif owner in ('class', 'classfield', 'classfield+inline'):
+    elif owner in ('class', 'classfield', 'classfield+inline', 'classtypefield'):
         d, off = doc(ind + '    ')
         lines += pre + [ind + 'class K:']
         base = len(lines)
         lines += d + [ind + '    def __init__(self, a): pass']
-        if owner == 'classfield':
+        if owner in ('classfield', 'classtypefield'):
             lines += [ind + '    q = 1']
         elif owner == 'classfield+inline':
             lines += [ind + '    q = 1', ind + '    """inline docstring of q"""']
@@ -154,6 +168,26 @@ def module_source(owner: str, fmt: str, kind: str, pos: str, layout: Tuple[bool,
         if owner == 'inherited':
             # the docstring is shown again on an overriding method without docstring, here and in a companion module
             lines += ['class Sub(K):', '    def m(self, a):', '        pass']
+    elif owner == 'class-redefined':
+        # the name is defined twice: the documentation shown is the second definition's, whose problems must be reported
+        d, off = doc('    ')
+        lines += ['class K:', '    "first definition"', '    def m(self): pass', 'class K:']
+        base = len(lines)
+        lines += d + ['    def m(self): pass']
+    elif owner == 'class-redefined-both-bad':
+        # both definitions have a faulty docstring: the first one's report must not swallow the second one's
+        if 'markup' not in PROB[fmt]:
+            return None
+        d, off = doc('    ')
+        bad0 = PROB[fmt]['markup'].replace('X', '0')
+        lines += ['class K:', f'    """First definition {bad0} end."""', '    def m(self): pass', 'class K:']
+        base = len(lines)
+        lines += d + ['    def m(self): pass']
+    elif owner == 'function-redefined':
+        d, off = doc('    ')
+        lines += ['def f(a):', '    "first definition"', 'def f(a):']
+        base = len(lines)
+        lines += d + ['    pass']
     elif owner == 'typefield+inline':
         # the type of q comes from a field of the class docstring (an earlier line record), its documentation from its own inline docstring
         d, off = doc(ind + '    ')
@@ -182,6 +216,8 @@ def module_source(owner: str, fmt: str, kind: str, pos: str, layout: Tuple[bool,
         lines += pre + [ind + 'v = 1']
         base = len(lines)
         lines += d
+    # context shared by every case: annotated module-level objects (their annotations are rendered through the module's own linker)
+    lines += ['def zz_ctx(a: int = 1) -> str:', '    pass', 'zz_var: int = 0']
     src = '\n'.join(lines) + '\n'
     # physical 1-based lines
     first_body_line = base + 1 + (0 if first_on_open else off)
@@ -256,6 +292,9 @@ def run_batch(fmt: str, batch: Sequence[Tuple[Any, ...]], res: Dict[str, Any]) -
     for name, (kind, owner, pos, li, nest, raw, deco, k, pl, bs, ext, src) in meta.items():
         res['evals'] += 1
         got = rep.get(name, [])
+        if owner == 'class-redefined-both-bad':
+            # the file holds a second, deliberate problem in the first definition (line k + 2): it is judged by the other owners, not here
+            got = [(ln, msg) for ln, msg in got if ln != str(k + 2)]
         case = {'kind': 'module', 'fmt': fmt, 'pkind': kind, 'owner': owner, 'pos': pos, 'layout': li, 'nest': nest, 'raw': raw, 'deco': deco, 'k': k}
         label = f'{fmt}/{kind}/{owner}'
         laydesc = ['open', 'below', 'lead1', 'lead2', 'ws-line', 'trailing-blanks'][li]
